@@ -243,6 +243,10 @@ func c20ProgramChoices(r *Report) int {
 		{map[string]string{"prog.a.evy": "print 1+1\nrect 10 10\n", "prog.b.evy": "print 2\nmove 10 10\nrect 10 10\n", "prog.c.evy": "print \"2\"\nrect 10 10\n", "pic.evy": "rect 10 10\n"}, "a, b, c", "a, c", "2"},
 		{map[string]string{"prog.a.evy": "print \"x\"\nline 5 5\n", "prog.b.evy": "print \"y\"\nline 5 5\n", "prog.c.evy": "print \"x\"\nline 6 6\n", "pic.evy": "line 6 6\n"}, "a, c", "c", "x"},
 	}
+	// outputs that differ from the question's only in leading or trailing whitespace are different outputs
+	sets = append(sets,
+		set{map[string]string{"prog.a.evy": "print \"hi\"\nmove 50 50\ncircle 10\n", "prog.b.evy": "print \" hi\"\nmove 50 50\ncircle 10\n", "prog.c.evy": "print \"hi\\n\"\nmove 50 50\ncircle 10\n", "pic.evy": "move 50 50\ncircle 10\n"}, "a", "a, b, c", "hi"},
+		set{map[string]string{"prog.a.evy": "print \"hi \"\nline 5 5\n", "prog.b.evy": "print \"hi\"\nline 5 5\n", "prog.c.evy": "print \"\\thi\"\nline 6 6\n", "pic.evy": "line 6 6\n"}, "b", "c", "hi"})
 	subsets := []string{"a", "b", "c", "a, b", "a, c", "b, c", "a, b, c"}
 	for si, st := range sets {
 		for _, order := range [][]string{{"text", "svg"}, {"svg", "text"}} {
